@@ -78,6 +78,10 @@ def gen_leaf(rng, depth):
         nd = rng.choice([0, 1, 1, 1, 2, 2, 3])
         shape = [rng.choice([0, 1, 2, 3, 5]) if rng.random() < 0.15
                  else rng.randint(1, 6) for _ in range(nd)]
+        if rng.random() < 0.04:
+            # an occasional large array (traces, native spectra): file sizes
+            # then span 1 kB .. 100 kB
+            shape = [rng.choice([1500, 4000, 12000])]
         return {'t': 'array', 'dtype': rng.choice(['f8', 'f8', 'f8', 'i8',
                                                    'b1', 'f4', 'i4']),
                 'shape': shape, 'seed': rng.randrange(2**31),
